@@ -308,3 +308,31 @@ func SortedKeys[V any](m map[string]V) []string {
 	sort.Strings(ks)
 	return ks
 }
+
+// SourcePath maps a path under /repo to the file a check is really built from: when the check runs against an overlay
+// (VERIF_OVERLAY or -overlay= in GOFLAGS: mutation testing without touching /repo) fact generators that read source
+// files must read the replacement, like the compiler does.
+func SourcePath(p string) string {
+	path := os.Getenv("VERIF_OVERLAY")
+	if path == "" {
+		for _, f := range strings.Fields(os.Getenv("GOFLAGS")) {
+			if strings.HasPrefix(f, "-overlay=") {
+				path = strings.TrimPrefix(f, "-overlay=")
+			}
+		}
+	}
+	if path == "" {
+		return p
+	}
+	b, err := os.ReadFile(path)
+	if err != nil {
+		return p
+	}
+	var ov struct{ Replace map[string]string }
+	if json.Unmarshal(b, &ov) == nil {
+		if r, ok := ov.Replace[p]; ok && r != "" {
+			return r
+		}
+	}
+	return p
+}
